@@ -1,3 +1,2 @@
-import Yuiv.Drv.Loop
--- stub driver for C19 (not built yet)
-def main : IO Unit := Yuiv.Drv.loop (fun _ => "unimplemented")
+import Yuiv.Drv.C19
+def main : IO Unit := Yuiv.Drv.loop Yuiv.Drv.C19.handle
